@@ -21,7 +21,7 @@ T = {
             "model: scalar maps t<-t(1+g(1-t)), t<-1-(1-t)^3; complex-adjoint LAPACK for pinv"),
     "C04": ("4.C04", "model checking of the restart loop: all iteration caps 0..n on enumerated system classes incl. exact-arithmetic monomial systems forcing every lucky-breakdown position; per-cycle optimum vs dense least-squares GMRES model",
             "Every breakdown position (cycle m, step j) for n<=4 is forced deterministically by construction; info fields are recomputed independently; per-cycle residuals replayed against the model.",
-            "model: dense restarted GMRES on the complex adjoint; LAPACK lstsq/solve"),
+            "model: dense restarted GMRES on the complex adjoint; LAPACK lstsq/solve; fault injection: a false lucky breakdown at every (cycle, step) position and a failing LU inside the preconditioner; ill-conditioned cells with an 80-bit residual"),
     "C05": ("4.C05", "exhaustive exploration over all singular-value multiplicity compositions x shapes x factor kinds x truncation ranks",
             "All compositions of min(m,n) into clusters (incl. trailing zero clusters) for shapes <=4 (5 thorough) are executed against prescribed spectra.",
             "oracle: prescribed factors; svals via complex adjoint"),
@@ -45,13 +45,13 @@ T = {
             "oracle: svals/rank via complex adjoint"),
     "C12": ("4.C12", "exhaustive exploration of the parameter grid (shape, rank, R, oversample, n_iter/n_passes) x enumerated global seeds",
             "The global RNG is the only scheduler; seeds 0..S-1 are enumerated, every grid cell executed.",
-            "oracle: svals via complex adjoint"),
+            "oracle: svals via complex adjoint; adversarial-sketch cells: the harness reads the first sketch column of each enumerated seed and builds the input orthogonal to it"),
     "C13": ("4.C13", "model checking over enumerated seeds with the test sketch regenerated by the harness: sound per-run bound on the true residual whenever converged=True (n <= sketch size), enumerated-trace bound with measured slack for n > sketch size",
             "Each (solver, config, seed) run is a deterministic trace; converged => exact bound via sigma_min of the regenerated test sketch; history tail recomputed.",
             "oracle: pinv via complex adjoint; numpy MT19937 stream order"),
     "C14": ("4.C14", "explicit-state search over call histories (depth<=3, pool of 4-6 problems incl. a singular system and tight-budget cells) of each solver class/config with canonicalised __dict__ as state; references from fresh objects in pristine forked processes; in-place aliasing step; argument-hash / repeatability battery; two import styles",
             "All sequences of <=3 calls per cell are executed on live objects; each call's result must equal a fresh object's bitwise.",
-            "differential oracle (the implementation itself on a fresh object)"),
+            "differential oracle (the implementation itself on a fresh object); earlier results re-checked after later calls; read-only arguments; hash-salt independence across processes"),
     "C15": ("4.C15", "exhaustive exploration on exact letters: definitions with exact rational expected values, all pairs/triples of a pool for the inequalities, every ord spelling",
             "Norm definitions checked exactly on Pythagorean letters for all shapes <=3; axioms on all ordered pairs.",
             "oracle: exact integer sums; svals via complex adjoint"),
@@ -89,7 +89,7 @@ def main():
                     "replay_cmd_template": f"{PY} -m qmc.run {pid} --replay {{path}}",
                     "engine": "qmc",
                     "level_claimed": {"category": "model_checking", "text": text, "design_ref": ref},
-                    "level_note": note + "; bounded: sizes, letters and seeds as listed in evidence.coverage.bounds",
+                    "level_note": note + "; every numerical check also runs on the shared enumerated list of unusual-but-legal input variants (checks/common.py: component supports, ties, gradings, near-structured, sign patterns, layouts incl. read-only, ...); bounded: sizes, letters and seeds as listed in evidence.coverage.bounds",
                     "technique": tech,
                 }
             )
